@@ -534,6 +534,15 @@ impl Prop for C15 {
         for f in ["8/8/4k3/8/8/3K4/8/8 w - - 0 1", "7k/8/8/8/8/8/8/KB6 w - - 0 1", "8/8/8/p1p1p1p1/P1P1P1P1/8/4k3/K7 w - - 0 1"] {
             cases.push(BoundsCase::SelfPlay { fen: f.to_string() });
         }
+        // a single `position` command carrying far more plies than the state stack holds: it must be refused, whole
+        for plies in [404usize, 512, 520, 700, 1400] {
+            let mut line = String::from("position startpos moves");
+            for k in 0..plies {
+                line.push(' ');
+                line.push_str(["g1f3", "g8f6", "f3g1", "f6g8"][k % 4]);
+            }
+            cases.push(BoundsCase::Script { lines: vec![line, "isready".into(), "show".into(), "isready".into()], run_ms: 300 });
+        }
         // fortresses in which both sides have a single legal move for ever: self-play can only end at the length guard
         for f in crate::props::c08::LOCKED {
             cases.push(BoundsCase::SelfPlay { fen: f.to_string() });
